@@ -97,7 +97,7 @@ theorem deposit_trace_inv {so : ScriptOf} {a : Account} {amount rate : Int} {bes
     {maxValue : Option Int} {fd : Option Funded} {f : Faults}
     (h : (deposit so a amount rate best eh nv maxValue fd f).trace ≠ []) :
     a.state = StateOpen ∧ a.version ≤ nv ∧ ∃ maxV ne tx, maxValue = some maxV ∧ a.value + amount ≤ maxV ∧
-      optExpiry eh best = .ok ne ∧
+      (MinAccountValue : Int) ≤ a.value + amount ∧ optExpiry eh best = .ok ne ∧
       inputsForDeposit so a (createNewAccountOutput so a (a.value + amount) ne nv).1 amount
         (determineWitnessType a best) rate fd = .ok tx ∧
       deposit so a amount rate best eh nv maxValue fd f
@@ -116,15 +116,20 @@ theorem deposit_trace_inv {so : ScriptOf} {a : Account} {amount rate : Int} {bes
         simp only [] at h
         split at h
         · simp [refuse] at h
-        · rename_i hmax
+        · rename_i hmin
           split at h
           · simp [refuse] at h
-          · rename_i ne hne
+          · rename_i hmax
             split at h
             · simp [refuse] at h
-            · rename_i tx htx
-              refine ⟨by simpa using hs, by omega, maxV, ne, tx, rfl, by omega, hne, htx, ?_⟩
-              simp [hs, hv, hmax, hne, htx]
+            · rename_i ne hne
+              split at h
+              · simp [refuse] at h
+              · rename_i tx htx
+                have hdm : depositChecksMin = true := by decide
+                refine ⟨by simpa using hs, by omega, maxV, ne, tx, rfl, by omega, ?_, hne, htx, ?_⟩
+                · simp only [hdm, true_and] at hmin; omega
+                · simp [hs, hv, hmin, hmax, hne, htx]
 
 theorem optExpiry_window {eh best : UInt32} {ne : Option UInt32} (h : optExpiry eh best = .ok ne)
     (hw : ∀ e b, validateAccountExpiry e b = .ok () → b.toNat + 144 ≤ e.toNat ∧ e.toNat ≤ b.toNat + 52560) :
